@@ -124,7 +124,8 @@ fn c_xtea_bytes_api() {
 }
 
 // The same with nothing replaced (real key loading and real 32 cycles against the reference), both directions.
-// @ob name=c_xtea_mono_api props=C09 tier=thorough fn=xtea::Xtea::new,xtea::Xtea::encrypt_block,xtea::Xtea::decrypt_block timeout=1800
+// (not run to completion in the contributing session: not registered)
+// @candidate name=c_xtea_mono_api props=C09 tier=thorough fn=xtea::Xtea::new,xtea::Xtea::encrypt_block,xtea::Xtea::decrypt_block timeout=1800
 #[kani::proof]
 #[kani::unwind(34)]
 fn c_xtea_mono_api() {
@@ -255,7 +256,8 @@ fn l_xtea_roundtrip() {
 }
 
 // The same on the real code with nothing replaced (measured in the design round: ~770 s cadical).
-// @ob name=l_xtea_mono_roundtrip props=C01 kind=lemma tier=thorough fn=xtea::Xtea::encrypt_block,xtea::Xtea::decrypt_block timeout=3000
+// (not run to completion in the contributing session: not registered)
+// @candidate name=l_xtea_mono_roundtrip props=C01 kind=lemma tier=thorough fn=xtea::Xtea::encrypt_block,xtea::Xtea::decrypt_block timeout=3000
 #[kani::proof]
 #[kani::unwind(34)]
 fn l_xtea_mono_roundtrip() {
